@@ -313,6 +313,7 @@ class Engine:
         self.models = {}
         self.opaque = None  # predicate(callee dict) -> bool : treat as uninterpreted function
         self.hooks = {}  # callee path suffix -> model override
+        self.hooks_by_id = {}  # resolved fn id -> model override
         self.stats = {"paths": 0, "steps": 0, "fm": 0, "asserts": 0, "asserts_const": 0, "calls_inlined": 0,
                       "calls_modelled": 0, "calls_opaque": 0, "calls_unmodelled": 0, "pruned": 0}
         self.site_stats = {}
@@ -1577,8 +1578,8 @@ class Engine:
         name = c.get("inst") or c.get("decl") or c.get("kind")
         # 1. rule-specific hooks, then std models
         res = None
-        m = None
-        for suf, h in self.hooks.items():
+        m = self.hooks_by_id.get(c.get("fn_id")) if c.get("fn_id") is not None else None
+        for suf, h in (self.hooks.items() if m is None else ()):
             if path == suf or path.endswith("::" + suf) or name == suf:
                 m = h
                 break
